@@ -163,3 +163,69 @@ func Date(year int, month Month, day, hour, min, sec, nsec int, loc *time.Locati
 func Unix(sec, nsec int64) Time { return time.Unix(sec, nsec) }
 
 var UTC = time.UTC
+
+// ---- pass-throughs that do not read the clock (so that code using them still builds under the overlay) ----
+
+type Location = time.Location
+type Weekday = time.Weekday
+type ParseError = time.ParseError
+
+var Local = time.Local
+
+func ParseDuration(s string) (Duration, error)    { return time.ParseDuration(s) }
+func Parse(layout, value string) (Time, error)    { return time.Parse(layout, value) }
+func UnixMilli(msec int64) Time                   { return time.UnixMilli(msec) }
+func UnixMicro(usec int64) Time                   { return time.UnixMicro(usec) }
+func FixedZone(name string, offset int) *Location { return time.FixedZone(name, offset) }
+func LoadLocation(name string) (*Location, error) { return time.LoadLocation(name) }
+
+// Tick is NewTicker(d).C (virtual clock).
+func Tick(d Duration) <-chan Time {
+	if d <= 0 {
+		return nil
+	}
+	return NewTicker(d).C
+}
+
+const (
+	Layout      = time.Layout
+	ANSIC       = time.ANSIC
+	UnixDate    = time.UnixDate
+	RFC822      = time.RFC822
+	RFC1123     = time.RFC1123
+	RFC3339     = time.RFC3339
+	RFC3339Nano = time.RFC3339Nano
+	Kitchen     = time.Kitchen
+	Stamp       = time.Stamp
+	StampMilli  = time.StampMilli
+	StampMicro  = time.StampMicro
+	StampNano   = time.StampNano
+	DateTime    = time.DateTime
+	DateOnly    = time.DateOnly
+	TimeOnly    = time.TimeOnly
+)
+
+const (
+	January   = time.January
+	February  = time.February
+	March     = time.March
+	April     = time.April
+	May       = time.May
+	June      = time.June
+	July      = time.July
+	August    = time.August
+	September = time.September
+	October   = time.October
+	November  = time.November
+	December  = time.December
+)
+
+const (
+	Sunday    = time.Sunday
+	Monday    = time.Monday
+	Tuesday   = time.Tuesday
+	Wednesday = time.Wednesday
+	Thursday  = time.Thursday
+	Friday    = time.Friday
+	Saturday  = time.Saturday
+)
